@@ -189,7 +189,8 @@ def execute(scn, L):
             parsed = L.DiffX.from_bytes(data)
         elif via == 'subclass':
             # a subclass of DiffX that overrides nothing
-            parsed = type('DiffX', (L.DiffX,), {}).from_stream(h)
+            parsed = domworld.diffx_subclass(
+                L, len(data) % 2 == 0).from_stream(h)
         elif via == 'shared_reader':
             rd = L.DiffXDOMReader(L.DiffX)
             rd.reader_cls = sized_reader_cls(L, scn.get('block_size'))
@@ -235,7 +236,7 @@ def execute(scn, L):
             del parsed.changes[-1]
 
         again = L.DiffX.from_bytes(data) if via != 'subclass' else \
-            type('DiffX', (L.DiffX,), {}).from_bytes(data)
+            domworld.diffx_subclass(L, len(data) % 2 == 1).from_bytes(data)
         d2 = domworld.first_diff(want, domworld.snap_tree(again))
 
         if d2 is not None:
